@@ -86,6 +86,16 @@ func main() {
 	if *prop == "all" {
 		os.Exit(runAll(*repo))
 	}
+	if *prop == "probe-ubc" {
+		c, err := Load(*repo, nil, "")
+		if err != nil {
+			fmt.Fprintln(os.Stderr, err)
+			os.Exit(2)
+		}
+		probeUseBeforeCheck(c)
+		probeTypedNil(c)
+		os.Exit(0)
+	}
 	if *prop == "probe-getters" {
 		c, err := Load(*repo, nil, "")
 		if err != nil {
